@@ -100,6 +100,8 @@ class Ctx:
         meta = self.path("tlc_%s_%s" % (cfg.replace(".cfg", ""), tag))
         cmd = ["timeout", str(timeout), "tlc", "-workers", str(workers), "-metadir", meta, "-cleanup",
                "-noGenerateSpecTE", "-config", cfg] + extra + [module + ".tla"]
+        env = dict(env or {})
+        env["JAVA_TOOL_OPTIONS"] = (env.get("JAVA_TOOL_OPTIONS", "") + " -Xmx8g").strip()
         rc, out, dt = run(cmd, cwd=SPEC, env=env, timeout=timeout + 30)
         shutil.rmtree(meta, ignore_errors=True)
         if rc == 124:
@@ -190,6 +192,12 @@ class Ctx:
         return n, bad, diameter != n + 1
 
     # ------------------------------------------------------------------ traces
+    @staticmethod
+    def read_results(path):
+        """Pattern B: result lines written by a harness `replay` run."""
+        with open(path) as f:
+            return [json.loads(l) for l in f if l.strip()]
+
     @staticmethod
     def read_trace(path):
         with open(path) as f:
